@@ -23,9 +23,9 @@ func init() {
 		Real: "real: all of kvql from /repo's working tree; simulated: storage engine, caller",
 		NCases: func(tier string) int {
 			if tier == "thorough" {
-				return 600000
+				return 5000000
 			}
-			return 30000
+			return 120000
 		},
 		Gen:    genC05,
 		Run:    runC05,
